@@ -707,11 +707,23 @@ where
         }
     }
 
+    /// Map a raw hash value away from the two values the standard storage reserves
+    /// as slot markers (0 = empty slot, u64::MAX = tombstone), so that a key whose
+    /// hasher produces one of them is stored and found like any other key.
+    #[inline]
+    fn normalize_hash(hash: u64) -> u64 {
+        match hash {
+            0 => 1,
+            u64::MAX => u64::MAX - 1,
+            h => h,
+        }
+    }
+
     /// Hash a key using the configured hasher
     fn hash_key(&self, key: &K) -> u64 {
         let mut hasher = self.hash_builder.build_hasher();
         key.hash(&mut hasher);
-        hasher.finish()
+        Self::normalize_hash(hasher.finish())
     }
 
     /// Hash a borrowed key using the configured hasher
@@ -722,7 +734,7 @@ where
     {
         let mut hasher = self.hash_builder.build_hasher();
         key.hash(&mut hasher);
-        hasher.finish()
+        Self::normalize_hash(hasher.finish())
     }
 
     /// Resize the storage to accommodate more elements
@@ -993,7 +1005,7 @@ where
 
         let mut hasher = hash_builder.build_hasher();
         key.hash(&mut hasher);
-        let hash = hasher.finish();
+        let hash = Self::normalize_hash(hasher.finish());
 
         let capacity = entries.len();
         let index = (hash as usize) & *mask;
@@ -1087,7 +1099,7 @@ where
 
         let mut hasher = hash_builder.build_hasher();
         key.hash(&mut hasher);
-        let hash = hasher.finish();
+        let hash = Self::normalize_hash(hasher.finish());
 
         let capacity = entries.len();
         let index = (hash as usize) & *mask;
